@@ -216,12 +216,18 @@ def run(ctx):
         def __init__(self, fn):
             self.fn = fn
             self.moves = []
+            self._seen_moves = set()
             self.subs = []
 
         def call(self, ai, site, fkey, args, st):
             if any(a is self.fn for a in ancestors(site)) and fkey[0].split('::')[-1] in ('operator+', 'operator-') and \
                     len(args) == 2 and args[1][0] == 'val':
-                self.moves.append((fkey[0].split('::')[-1], args[1][1]))
+                # (several abstract states may reach one site: the same step recorded again is the same step)
+                rec = (fkey[0].split('::')[-1], args[1][1])
+                key_ = (id(site), str(args[1][1]))
+                if key_ not in self._seen_moves:
+                    self._seen_moves.add(key_)
+                    self.moves.append(rec)
 
         def subscript(self, ai, e, ext, idx, st):
             self.subs.append((e, ext, idx))        # in the function itself or in a helper followed from it
